@@ -9,6 +9,11 @@ Section B2C.
     do varnames <- (match block_type with Some f => foldM (fun t ik => fa_setitem str_eqb t (fst ik) (snd ik)) (combine (map Z.of_nat (seq 0 (length (args_to_varnames (fn_args f))))) (args_to_varnames (fn_args f))) fromargs_empty | None => OK fromargs_empty end);
     do constants <- (match block_type with Some f => match fn_doc f with Some d => fa_setitem keq fromargs_empty 0 (str_c d) | _ => OK fromargs_empty end | None => OK fromargs_empty end);
     OK (mkEnc fromargs_empty varnames fromargs_empty constants).
+  Definition dec_init (names varnames cellvars : list str) (constants : list C) (block_type : option function) (a : args) : res (decstate C) :=
+    let st0 := mkDec (toargs_init names 0) (toargs_init varnames (args_len a)) (toargs_init cellvars 0) (toargs_init constants 0) in
+    if (match block_type with Some f => match fn_doc f with Some _ => true | None => false end | None => false end) then match PCD.Gen.SrcTables.found_index keq (d_consts st0) 0 with
+      | OK (_, _, t) => OK (mkDec (d_names st0) (d_varnames st0) (d_cellvars st0) t) | Err e => Err e end
+    else OK st0.
 End B2C.
 Definition iter_code_data (d : code_data) : res (list code_data) :=
   do ks <- blocks_to_constants key_eqb is_str_const (KInner INone) (fun s => KInner (IStr s)) (cd_blocks d) (cd_addargs d) (cd_type d);
